@@ -1,7 +1,7 @@
 #!/usr/bin/env python3
 """For every seeded/<id> whose meta.json says tests 'pending': apply the patch in a scratch worktree,
 run the pinned test-suite there and record the result in meta.json."""
-import json, pathlib, re, subprocess, sys
+import json, os, pathlib, re, subprocess, sys
 
 VERIF = pathlib.Path(__file__).resolve().parent.parent
 only = sys.argv[1:]
@@ -13,6 +13,10 @@ for d in sorted((VERIF / "seeded").iterdir()):
     if meta.get("tests_with_patch") not in ("pending", None) and not only:
         continue
     wt = f"/tmp/wt/confirm-{d.name}"
+    try:  # several instances of this script may run side by side
+        os.close(os.open(f"/tmp/wt/confirm-{d.name}.lock", os.O_CREAT | os.O_EXCL))
+    except FileExistsError:
+        continue
     subprocess.run(["git", "-C", "/repo", "worktree", "remove", "--force", wt], capture_output=True)
     subprocess.run(["git", "-C", "/repo", "worktree", "add", "--detach", wt, "HEAD"], check=True, capture_output=True)
     try:
@@ -46,3 +50,4 @@ for d in sorted((VERIF / "seeded").iterdir()):
         print(d.name, meta["tests_with_patch"], flush=True)
     finally:
         subprocess.run(["git", "-C", "/repo", "worktree", "remove", "--force", wt], capture_output=True)
+        os.unlink(f"/tmp/wt/confirm-{d.name}.lock")
